@@ -91,7 +91,9 @@ None == "none"
 M == {MapOrder[i] : i \in 1..Len(MapOrder)}
 Root == MapOrder[1]
 Nodes == M \cup Hd
-Kinds == {"None", "zero", "str", "list", "weird"}
+\* (what load() returns: None, 0, '', [], an object with hostile __bool__ / __eq__, and values of the library's own
+\* types - a ResourceMap, a Handle, a World.  No action of the intended model reads it.)
+Kinds == {"None", "zero", "str", "list", "weird", "rmap", "handle", "world"}
 NameClasses == {"plain", "under", "private", "dunder", "keyword", "const", "nonascii", "space", "dot", "digit"}
 IsIdent(c) == c \notin {"space", "dot", "digit"}        \* str.isidentifier()
 Mangled(c) == c = "private"                              \* __x inside a class body becomes _Class__x
